@@ -166,9 +166,11 @@ _ANALOG_NOTE = ("Trusted: the exact rational (math/big) reference of the shaping
 
 prop(
     "C06", "exploration",
-    "One axis per case: range in {0..255, -128..127, -127..127, -512..511, 0..1023, -32768..32767, 0..65535, hat -1..1}; uni-/bidirectional CC "
-    "or pitch bend; deadzone from {0,.002,.05,.1,.25,.49,.5,.9} or k/1000, given as specific entry, per-handler default or absent; flip; "
-    "deadzone_at_center (min==0 only); channel offsets; default channel. Positions: EVERY raw value ascending (and descending) for ranges up to "
+    "One axis per case (any of the kernel's axis codes): range in {0..255, -128..127, -127..127, -512..511, 0..1023, -32768..32767, 0..65535, hat -1..1, "
+    "0..1, 0..2, 0..4, 0..100, -100..100, 0..256, 0..4095, -2048..2047, 0..127, 0..16383, ranges that do not start at 0 (1..255, 64..192, 1472..5472, "
+    "100..200, 1..2) and one-sided ranges (-255..0, -1..0, -32768..0)}; uni-/bidirectional CC (also both directions on one controller) "
+    "or pitch bend; deadzone from {0,.002,.05,.1,.25,.49,.5,.9,.95,.999,1.0} or k/1000, given as specific entry, per-handler default or absent; flip; "
+    "deadzone_at_center (also on signed axes, where it changes nothing); channel offsets; default channel. Positions: EVERY raw value ascending (and descending) for ranges up to "
     "1024 values, otherwise both ends, centre, deadzone edges (each +-3) plus 32-256 sampled values ascending; then 0-40 arbitrary (previous, new) "
     "pairs. Oracle per event on the receiver's last value: within one step of the exact rational value (pitch bend: of the map anchored at "
     "0/8192/16383 or of the linear map), monotonic in raw, physical end stops exactly 0/127/16383, inside the deadzone exactly the rest value "
@@ -318,7 +320,8 @@ prop(
     "in the middle of a burst. Count-based oracle that is sound under any timing: total notifications <= in-place writes to *.toml files "
     "(so a notification for any other file is an excess), after every write/burst that touched a .toml file at least one further "
     "notification arrives within 10 s, the stream does not end before cancel, and after cancel a consumer that keeps receiving sees it end "
-    "within 10 s. The watches are proven active first by a warm-up write per directory. TestC19Manager runs the application's Manager.Run "
+    "within 10 s. The first modification in every directory, made the moment the call has returned, counts like any other (no warm-up); "
+    "files in sub-directories (which the loader reads) are written to as well. TestC19Manager runs the application's Manager.Run "
     "itself (package main, in-package test; a private /dev with an empty /dev/input) in a generated hidi-config tree: after every in-place write to "
     "a .toml file the manager loads the device configurations again within 10 s, loads <= 1 + writes to .toml files, and Run returns within 10 s "
     "of cancellation. Non-trivial = the case contains a TOML write.",
